@@ -363,7 +363,7 @@ func (t *Term) String() string {
 // sort. ok=false if some leaf is not a literal (or the tree is too large).
 func (c *Ctx) LiftUnary(t *Term, f func(lit *Term) *Term) (*Term, bool) {
 	memo := map[int]*Term{}
-	budget := 4096
+	budget := 1 << 17
 	var rec func(x *Term) (*Term, bool)
 	rec = func(x *Term) (*Term, bool) {
 		if r, ok := memo[x.ID]; ok {
